@@ -127,12 +127,40 @@ def writer_rule(rep, prog):
     rep.floor("num_messages writers", 1, len(writers))
 
 
+class _Suffixed:
+    """report proxy for a second configuration: same rules, keys and messages marked with the configuration"""
+    def __init__(self, rep, what):
+        self._rep, self._what = rep, what
+
+    def __getattr__(self, n):
+        return getattr(self._rep, n)
+
+    def violation(self, rule, key, msg, site=None, detail=None):
+        return self._rep.violation(rule, "%s:%s" % (key, self._what.split()[0]), "[%s] %s" % (self._what, msg), site=site, detail=detail)
+
+    def instance(self, rid, what, nontrivial=True, sample=None):
+        return self._rep.instance(rid, "%s|%s" % (what, self._what.split()[0]), nontrivial=nontrivial, sample=None)
+
+    def floor(self, name, expected_min, found):
+        return self._rep.floor("%s (%s)" % (name, self._what), expected_min, found)
+
+
 def run(rep, tier, replay=None):
     prog = facts.load("std")
     run_, oks, errs = decode_paths(prog, 14)
     owner_rule(rep, prog)
     tracker.alt_passes(rep, tier, oks, lambda: action_rule(rep, prog, oks))
     writer_rule(rep, prog)
+    # the allocation-only (no_std) build of the tracker must account in the same way (cfg(feature = "std") blocks differ)
+    try:
+        aprog = facts.load("alloc")
+    except Exception as e:      # facts for the alloc configuration are produced by setup.sh / facts.extract
+        aprog = None
+        rep.violation("R3", "anchor:alloc-config", "facts of the alloc-only configuration are not available: %r" % (e,))
+    if aprog is not None:
+        _r, aoks, _e = decode_paths(aprog, 14)
+        arep = _Suffixed(rep, "alloc-only build")
+        action_rule(arep, aprog, aoks)
     rep.assume("BTreeMap entry/or_default/get/retain behave as modelled in analysis/ai/sum_tracker.py; an existing record has arbitrary content")
     rep.assume("the history-level statement (exact counts over arbitrary interleavings) follows from the per-frame facts R1-R4 by induction over the history; the induction itself is not mechanised")
     return rep.finish(
